@@ -27,9 +27,21 @@ def main():
             rng = random.Random(f"{job['component']}/{job.get('profile')}/{job['seed']}")
             lines += list(comp['gen'](rng, job['n'], job.get('profile')))
         limit = job.get('case_timeout', 20)
+        timeouts = 0
         for ln in lines:
             real = realenv.guarded(comp['real'], limit, ln)
             recs, spec = [], []
+            if real == 'TIMEOUT':
+                # a call of the real code that does not return: a failure of whatever property rests on it; it is
+                # not run again for the oracles, and after three of them the job stops (each costs `limit` seconds)
+                timeouts += 1
+                recs = [{'prop': p, 'ok': False, 'expected': 'the call returns', 'observed': f'no return within {limit} s of real time',
+                         'what': 'the call of the real code did not return'} for p in (job.get('props') or ['*'])]
+                out['cases'].append({'line': ln, 'real': real, 'recs': recs, 'spec': []})
+                if timeouts >= 3:
+                    out['aborted'] = 'stopped after three calls that did not return'
+                    break
+                continue
             if comp.get('oracles'):
                 try:
                     recs, spec = comp['oracles'](ln, real)
